@@ -517,7 +517,16 @@ pub fn cmd_check(args: &Args) -> i32 {
     let runs_div = args.num("runs-div", 1).max(1);
     runs = (runs / runs_div).max(1);
     let merge_evidence = args.get("merge-evidence").is_some();
-    let profile = if cfg!(debug_assertions) { "checked" } else { "plain" };
+    let profile: &str = match std::env::var("ITREE_SIM_PROFILE").ok().as_deref() {
+        Some("dev") => "dev",
+        _ => {
+            if cfg!(debug_assertions) {
+                "checked"
+            } else {
+                "plain"
+            }
+        }
+    };
     println!("check {} tier={} seed={} runs={} workers={} build={}", prop, tier, seed, runs, workers, profile);
     let pool = run_pool(&prop, &tier, seed, workers, runs, false, "main");
     let distinct = count_distinct_hashes("main", workers);
@@ -603,7 +612,7 @@ pub fn cmd_check(args: &Args) -> i32 {
     for fnd in &distinct_found {
         let sh = shrink::shrink(&fnd.trace, &fnd.failure, shrink_budget, 3000);
         let sig = sh.failure.sig();
-        let path = format!("{}/{}-{}-{}{}.json", replay_dir, prop, seed, if profile == "plain" { "plain-" } else { "" }, hash_str(&format!("{}{}", sig, sh.trace.to_json().to_string())));
+        let path = format!("{}/{}-{}-{}{}.json", replay_dir, prop, seed, if profile == "plain" { "plain-" } else if profile == "dev" { "dev-" } else { "" }, hash_str(&format!("{}{}", sig, sh.trace.to_json().to_string())));
         let file = J::obj()
             .set("property", J::s(&prop))
             .set("seed", J::u(seed))
@@ -727,7 +736,7 @@ pub fn cmd_check(args: &Args) -> i32 {
         .set("inconclusive_examples", J::strs(inconcl_msgs))
         .set("worker_crashes", J::u(pool.crashes.len() as u64))
         .set("components", J::obj().set("real", J::strs(["MapTree", "MapList", "SetTree", "SetList", "KeyExpTree", "KeyExpList", "SegExpTree (all from /repo's working tree, guard on)"].iter().map(|s| s.to_string()))).set("simulated", J::strs(["logical clock", "user callbacks (Ord::cmp, comparator closures, KeyValue::key, expiration accessors)", "iterator consumer", "global allocator wrapper", "reference models"].iter().map(|s| s.to_string()))))
-        .set("build_profile", J::s(if cfg!(debug_assertions) { "release + debug-assertions + overflow-checks (checked)" } else { "plain release" }))
+        .set("build_profile", J::s(if profile == "dev" { "dev (opt-level 0, debug assertions, overflow checks)" } else if cfg!(debug_assertions) { "release + debug-assertions + overflow-checks (checked)" } else { "plain release" }))
         .set("workers", J::u(workers))
         .set("known_findings_printed", J::strs(known_printed.clone()))
         .set("violation_records", J::Arr(violation_records));
@@ -762,7 +771,7 @@ pub fn cmd_check(args: &Args) -> i32 {
                 let g = |k: &str| ev.get("coverage").and_then(|c| c.get(k)).cloned().unwrap_or(J::Null);
                 let summary = J::obj()
                     .set("build_profile", g("build_profile"))
-                    .set("what", J::s("the first 1/n of the same seeded runs executed once more on the plain release build (no debug assertions, no overflow checks, no unsafe-precondition checks: what users ship), same oracles"))
+                    .set("what", J::s(if profile == "dev" { "the first 1/n of the same seeded runs executed once more on an unoptimised build (opt-level 0, as `cargo test` builds the crate: recursion is not turned into loops), same oracles" } else { "the first 1/n of the same seeded runs executed once more on the plain release build (no debug assertions, no overflow checks, no unsafe-precondition checks: what users ship), same oracles" }))
                     .set("runs", g("runs"))
                     .set("evaluations", g("evaluations"))
                     .set("oracle_evaluations", g("oracle_evaluations"))
@@ -779,7 +788,7 @@ pub fn cmd_check(args: &Args) -> i32 {
                 };
                 if let Some(J::Obj(items)) = main.get("coverage").cloned().as_ref() {
                     let mut cov = J::Obj(items.clone());
-                    cov.put("plain_build_pass", summary);
+                    cov.put(if profile == "dev" { "dev_build_pass" } else { "plain_build_pass" }, summary);
                     main.put("coverage", cov);
                 }
                 main.put("violations", J::u(prev_v + violations));
